@@ -6,8 +6,10 @@
 //!   strings     = 'a'^p . c for a few p around block/buffer boundaries, c . 'a', c^L for L in 0..=300,
 //!                 sequences of <= 3 strings with/without the '|' furigana marker;
 //!   targets     = user signatures (z/m/p, bs=/len=/nulless/mask/furibug) carried by MSG and ANM scripts,
-//!                 the built-in text instructions of every MSG game, STD 128-byte names, ANM entry paths,
-//!                 mission.msg 64-byte lines.
+//!                 the built-in text instructions of every MSG game (TH06..TH18.5) and of TH10+ ending scripts,
+//!                 STD 128-byte names, ANM entry paths (path, path_2), mission.msg 64-byte lines;
+//!   plus all ordered pairs of ~290 "special" characters (quote, backslash, pipe, extreme trail bytes,
+//!   bytes equal to mask bytes) and, in the thorough tier, every unencodable BMP scalar value.
 //! Oracle: decompiled literal == source literal (own scanner); bytes in the compiled file == bytes predicted
 //! by the M7 string model written here (MSG carriers and mission files); strings that cannot be encoded or
 //! do not fit must give an error diagnostic (never success, never a panic).
@@ -206,6 +208,12 @@ fn mask_bytes((mut m, mut v, a): (u8, u8, u8), n: usize) -> Vec<u8> {
     out
 }
 
+/// VERIF_C15_SELFTEST_CORRUPT: 1 = corrupt one expected literal, 2 = corrupt one predicted byte (detection self-tests)
+fn selftest_mode() -> u8 {
+    static MODE: std::sync::OnceLock<u8> = std::sync::OnceLock::new();
+    *MODE.get_or_init(|| std::env::var("VERIF_C15_SELFTEST_CORRUPT").ok().and_then(|v| v.parse().ok()).unwrap_or(0))
+}
+
 fn round_up(n: usize, bs: usize) -> usize { if bs == 0 { n } else { (n + bs - 1) / bs * bs } }
 
 struct ModelOut { blob: Vec<u8>, masked_to_nul: bool }
@@ -226,6 +234,7 @@ fn model_blob(op: &OpSpec, s: &str, furi: &mut Option<Vec<u8>>, msg_limit: bool)
     let m = mask_bytes(op.mask, e.len());
     for (b, k) in e.iter_mut().zip(&m) { *b ^= *k; }
     let masked_to_nul = e[..text_len].iter().any(|&b| b == 0);
+    if selftest_mode() == 2 && op.opcode == 101 && s == "aaa" { e[0] ^= 0x01; }
     if op.furibug && s.starts_with('|') { *furi = Some(e.clone()); }
     let mut blob = op.pre_bytes.clone();
     if let Size::Pascal(_) = op.size { blob.extend((e.len() as u32).to_le_bytes()); }
@@ -267,12 +276,14 @@ struct Target {
     /// ordered-pair family in the quick tier? (thorough: every target)
     pairs_quick: bool,
     family: &'static str,
+    /// ending script (.end) instead of stage MSG: same container, different built-in signatures
+    end: bool,
 }
 
 impl Target {
     fn tool(&self) -> Tool {
         let kind = match self.carrier {
-            Carrier::Msg => Kind::Msg, Carrier::AnmIns | Carrier::AnmPath { .. } => Kind::Anm,
+            Carrier::Msg => if self.end { Kind::End } else { Kind::Msg }, Carrier::AnmIns | Carrier::AnmPath { .. } => Kind::Anm,
             Carrier::Std06 | Carrier::Std10 => Kind::Std, Carrier::Mission => Kind::Mission,
         };
         Tool::new(kind, self.game)
@@ -382,7 +393,7 @@ fn targets() -> Vec<Target> {
         let sig = sig_text(op, pre, post);
         ts.push(Target {
             name: format!("msg-user/th10:{}", sig), carrier: Carrier::Msg, game: Game::Th10, ops: vec![op.clone()],
-            mapfile: Some(msgmap.clone()), per_case_script: op.furibug, ps: ps_for(op.size), batch: 256, pairs_quick: matches!(op.opcode, 100 | 101 | 102 | 105 | 106), family: "user-signature/MSG",
+            mapfile: Some(msgmap.clone()), per_case_script: op.furibug, ps: ps_for(op.size), batch: 256, pairs_quick: true, family: "user-signature/MSG", end: false,
         });
     }
     // the same user signatures in the oldest MSG layout (no flags in the table): a representative pair
@@ -390,7 +401,7 @@ fn targets() -> Vec<Target> {
         let (op, pre, post) = &user[idx];
         ts.push(Target {
             name: format!("msg-user/th06:{}", sig_text(op, pre, post)), carrier: Carrier::Msg, game: Game::Th06, ops: vec![op.clone()],
-            mapfile: Some(msgmap.clone()), per_case_script: false, ps: ps_for(op.size), batch: 256, pairs_quick: false, family: "user-signature/MSG",
+            mapfile: Some(msgmap.clone()), per_case_script: false, ps: ps_for(op.size), batch: 256, pairs_quick: false, family: "user-signature/MSG", end: false,
         });
     }
     // ---- user signatures carried by ANM scripts (16-bit instruction size: long strings fit)
@@ -399,7 +410,7 @@ fn targets() -> Vec<Target> {
         let mut op = op.clone(); op.opcode += 900;
         ts.push(Target {
             name: format!("anm-user/th12:{}", sig_text(&op, pre, post)), carrier: Carrier::AnmIns, game: Game::Th12, ops: vec![op.clone()],
-            mapfile: Some(anmmap.clone()), per_case_script: false, ps: ps_for(op.size), batch: 256, pairs_quick: false, family: "user-signature/ANM",
+            mapfile: Some(anmmap.clone()), per_case_script: false, ps: ps_for(op.size), batch: 256, pairs_quick: false, family: "user-signature/ANM", end: false,
         });
     }
     // ---- built-in MSG text instructions
@@ -410,7 +421,7 @@ fn targets() -> Vec<Target> {
             ts.push(Target {
                 name: format!("msg-core/{}:ins_{}", game.as_str(), op.opcode), carrier: Carrier::Msg, game, ops: vec![op.clone()],
                 mapfile: None, per_case_script: op.furibug, ps: vec![0, 1, 2, 3], batch: 256,
-                pairs_quick: quick_game && k == 0, family: "builtin-signature/MSG",
+                pairs_quick: quick_game && k == 0, family: "builtin-signature/MSG", end: false,
             });
         }
         if ops.len() > 1 && ops.iter().all(|o| o.pre_bytes.is_empty()) {
@@ -418,13 +429,29 @@ fn targets() -> Vec<Target> {
             ts.push(Target {
                 name: format!("msg-core/{}:ins_{}-rotation", game.as_str(), ops.iter().map(|o| o.opcode.to_string()).collect::<Vec<_>>().join("/")),
                 carrier: Carrier::Msg, game, ops: ops.clone(), mapfile: None, per_case_script: true, ps: vec![], batch: 128,
-                pairs_quick: false, family: "builtin-signature/MSG-sequences",
+                pairs_quick: false, family: "builtin-signature/MSG-sequences", end: false,
+            });
+        }
+    }
+    // ---- built-in text instructions of ending scripts (TH10+): opcode 3 masked, 7 = dword + string, 10 / 12 plain
+    for game in [Game::Th10, Game::Th12, Game::Th18] {
+        let ops = vec![
+            plain(3, Size::Block(4), acc, false),
+            OpSpec { pre_src: "1, ", pre_bytes: vec![1, 0, 0, 0], ..plain(7, Size::Block(4), (0, 0, 0), false) },
+            plain(10, Size::Block(4), (0, 0, 0), false),
+            plain(12, Size::Block(4), (0, 0, 0), false),
+        ];
+        for (k, op) in ops.iter().enumerate() {
+            ts.push(Target {
+                name: format!("end-core/{}:ins_{}", game.as_str(), op.opcode), carrier: Carrier::Msg, game, ops: vec![op.clone()],
+                mapfile: None, per_case_script: false, ps: vec![0, 1, 2, 3], batch: 256, pairs_quick: game == Game::Th12 && k == 0,
+                family: "builtin-signature/END", end: true,
             });
         }
     }
     // ---- metadata
     let meta = |name: &str, carrier: Carrier, game: Game, ps: Vec<usize>, batch: usize| Target {
-        name: name.to_string(), carrier, game, ops: vec![], mapfile: None, per_case_script: false, ps, batch, pairs_quick: true, family: "metadata",
+        name: name.to_string(), carrier, game, ops: vec![], mapfile: None, per_case_script: false, ps, batch, pairs_quick: true, family: "metadata", end: false,
     };
     ts.push(meta("std/th06:stage_name+bgm", Carrier::Std06, Game::Th06, vec![0, 1, 125, 126], 9));
     ts.push(meta("std/th08:stage_name+bgm", Carrier::Std06, Game::Th08, vec![0, 126], 9));
@@ -882,6 +909,8 @@ enum Work {
     Sweep { t: usize, lo: usize, hi: usize },
     /// all ordered pairs (specials[lo..hi] x specials) on target t, generated inside the worker
     Pairs { t: usize, lo: usize, hi: usize },
+    /// thorough: specials[lo..hi] x every non-special character, in both orders, on target t
+    WidePairs { t: usize, lo: usize, hi: usize },
 }
 
 /// The small families of a target (lengths, buffer fill/overflow, unencodable probes, sequences).
@@ -975,6 +1004,20 @@ fn specials(chars: &[Ch]) -> Vec<Ch> {
     }).cloned().collect()
 }
 
+fn wide_pair_cases(t: &Target, first: &[Ch], chars: &[Ch], special_set: &HashSet<char>) -> Vec<Case> {
+    let mut out = vec![];
+    for a in first {
+        for b in chars {
+            if special_set.contains(&b.c) || b.c == 'a' { continue; }  // covered by the pair family / the prefix sweep
+            for (x, y) in [(a, b), (b, a)] {
+                let c = case1(format!("{}{}", x.c, y.c), format!("pair:{}+{}", ulabel(x.c), ulabel(y.c)));
+                if expectation(t, &c).is_ok() { out.push(c); }
+            }
+        }
+    }
+    out
+}
+
 fn pair_cases(t: &Target, first: &[Ch], all: &[Ch], already: &HashSet<String>) -> Vec<Case> {
     let mut out = vec![];
     for a in first {
@@ -1016,14 +1059,32 @@ pub fn run(tier: &str) -> Report {
     rep.extra.insert("two_byte_trail_classes".into(), json!(trail));
     rep.extra.insert("characters_total".into(), json!(chars.len()));
     rep.extra.insert("unencodable_probe_set".into(), json!(unencodable_candidates().iter().map(|c| ulabel(*c)).collect::<Vec<_>>()));
-    rep.extra.insert("targets".into(), json!(ts.iter().map(|t| t.name.clone()).collect::<Vec<_>>()));
+    rep.extra.insert("targets".into(), json!(ts.iter().map(|t| json!({"name": t.name, "prefix_positions": t.ps, "family": t.family})).collect::<Vec<_>>()));
+    // informational: the three characters that encode but decode to something else (outside the property)
+    let mut amb = vec![];
+    for c in ['\u{00A5}', '\u{203E}', '\u{2212}'] {
+        let t = &ts[0];
+        let built = build(t, &[case1(c.to_string(), "ambiguous".into())]);
+        let maps: Vec<&str> = t.mapfile.iter().map(|s| s.as_str()).collect();
+        let co = drive::compile(t.tool(), built.src.as_bytes(), &CompileOpts { mapfiles: maps.clone(), ..Default::default() });
+        let seen = match &co.bytes {
+            Some(b) => match drive::decompile(t.tool(), b, &DecompOpts { mapfiles: maps, ..Default::default() }).text {
+                Some(text) => scan(&text).ok().and_then(|l| l.into_iter().find(|l| l.paren_depth > 0)).map(|l| codepoints(&l.value)).unwrap_or_else(|| "<no literal>".into()),
+                None => "<decompile failed>".into(),
+            },
+            None => "<rejected>".into(),
+        };
+        amb.push(json!({"source": ulabel(c), "encoded_as": sjis_encode(&c.to_string()).map(|b| hex(&b)), "decompiled_as": seen}));
+    }
+    rep.extra.insert("ambiguous_characters_out_of_scope".into(), json!(amb));
 
     // ---- work list: small families of every target first (simplest first), then the character sweeps
     let t_plan = std::time::Instant::now();
     let mut work: Vec<Work> = vec![];
     let mut already: Vec<HashSet<String>> = vec![];
-    for (ti, t) in ts.iter().enumerate() {
-        let (ok, errs) = small_cases(t, thorough);
+    let smalls = par_map(&ts, None, |_, t| small_cases(t, thorough));
+    for ((ti, t), sm) in ts.iter().enumerate().zip(smalls) {
+        let (ok, errs) = sm.expect("no deadline");
         already.push(ok.iter().chain(errs.iter().map(|(c, _)| c)).filter(|c| c.strs.len() == 1).map(|c| c.strs[0].clone()).collect());
         for chunk in ok.chunks(t.batch.max(1)) { work.push(Work::Cases { t: ti, cases: chunk.to_vec(), expect: Ok(()) }); }
         for (c, r) in errs { work.push(Work::Cases { t: ti, cases: vec![c], expect: Err(r) }); }
@@ -1040,6 +1101,15 @@ pub fn run(tier: &str) -> Report {
         let mut lo = 0;
         while lo < spec.len() { let hi = (lo + 2).min(spec.len()); work.push(Work::Pairs { t: ti, lo, hi }); lo = hi; }
     }
+    let special_set: HashSet<char> = spec.iter().map(|c| c.c).collect();
+    if thorough {
+        const WIDE: &[&str] = &["msg-user/th10:z(bs=4)", "msg-user/th10:m(bs=4;mask=0x77,7,16)", "msg-user/th10:m(len=16;mask=0x77,7,16)",
+            "msg-user/th10:p(bs=4;mask=0x77,7,16)", "msg-core/th08:ins_16", "msg-core/th12:ins_15", "std/th06:stage_name+bgm", "anm/th12:path", "mission/th095:text"];
+        for (ti, t) in ts.iter().enumerate() {
+            if !WIDE.contains(&t.name.as_str()) { continue; }
+            for lo in 0..spec.len() { work.push(Work::WidePairs { t: ti, lo, hi: lo + 1 }); }
+        }
+    }
     // thorough: every BMP scalar value that Shift-JIS cannot encode must be rejected (one encoding)
     if thorough {
         for cp in 1u32..=0xFFFF {
@@ -1050,7 +1120,8 @@ pub fn run(tier: &str) -> Report {
             }
         }
     }
-    if std::env::var("VERIF_C15_SELFTEST_CORRUPT").map(|v| v == "1").unwrap_or(false) {
+    if selftest_mode() == 2 { rep.assumptions.push("SELFTEST: VERIF_C15_SELFTEST_CORRUPT=2 corrupted one predicted byte on purpose".into()); }
+    if selftest_mode() == 1 {
         for w in work.iter_mut() {
             if let Work::Cases { cases, expect: Ok(()), .. } = w { if cases.len() > 3 { cases[3].corrupt = true; break; } }
         }
@@ -1072,10 +1143,11 @@ pub fn run(tier: &str) -> Report {
                     Err(r) => run_err(t, &cases[0], *r, &mut out),
                 }
             },
-            Work::Sweep { .. } | Work::Pairs { .. } => {
+            Work::Sweep { .. } | Work::Pairs { .. } | Work::WidePairs { .. } => {
                 let (t, cases) = match w {
                     Work::Sweep { t, lo, hi } => (t, sweep_cases(&ts[*t], &chars[*lo..*hi], thorough, &already[*t])),
                     Work::Pairs { t, lo, hi } => (t, pair_cases(&ts[*t], &spec[*lo..*hi], &spec, &already[*t])),
+                    Work::WidePairs { t, lo, hi } => (t, wide_pair_cases(&ts[*t], &spec[*lo..*hi], &chars, &special_set)),
                     _ => unreachable!(),
                 };
                 let t = &ts[*t];
@@ -1095,11 +1167,11 @@ pub fn run(tier: &str) -> Report {
     let mut per_family: BTreeMap<String, u64> = BTreeMap::new();
     let mut per_target: BTreeMap<String, u64> = BTreeMap::new();
     for (w, r) in work.iter().zip(results) {
-        let (ti, is_err) = match w { Work::Cases { t, expect, .. } => (*t, expect.is_err()), Work::Sweep { t, .. } | Work::Pairs { t, .. } => (*t, false) };
+        let (ti, is_err) = match w { Work::Cases { t, expect, .. } => (*t, expect.is_err()), Work::Sweep { t, .. } | Work::Pairs { t, .. } | Work::WidePairs { t, .. } => (*t, false) };
         match r {
             None => not_run += 1,
             Some(mut o) => {
-                let fam = if matches!(w, Work::Cases { cases, .. } if cases[0].label.starts_with("unencodable-bmp:")) { "unencodable-bmp-sweep" } else if matches!(w, Work::Pairs { .. }) { "ordered-pairs-of-special-characters" } else { ts[ti].family };
+                let fam = if matches!(w, Work::Cases { cases, .. } if cases[0].label.starts_with("unencodable-bmp:")) { "unencodable-bmp-sweep" } else if matches!(w, Work::Pairs { .. }) { "ordered-pairs-of-special-characters" } else if matches!(w, Work::WidePairs { .. }) { "pairs-special-x-any-character-both-orders" } else { ts[ti].family };
                 *per_family.entry(fam.to_string()).or_insert(0) += o.cases;
                 *per_target.entry(ts[ti].name.clone()).or_insert(0) += o.cases;
                 if let Some(s) = o.sample.take() {
@@ -1136,13 +1208,14 @@ pub fn run(tier: &str) -> Report {
     rep.exhaustive = not_run == 0;
     rep.bound_completed = format!(
         "{} unambiguous Shift-JIS characters (every one- and two-byte code) x prefix positions {{per target}} x {} targets ({}); c^L for L in {} for c in {{a, U+30BD, U+FF71}}; buffer fill/overflow at cap-2..cap+2 bytes; all sequences of <= 3 strings over an 8-string furigana alphabet; {} unencodable probes{}",
-        chars.len(), ts.len(), if thorough { "plus each character after/before U+30BD and between U+FF71; ordered pairs of special characters on every target" } else { "ordered pairs of special characters on a subset of targets" },
+        chars.len(), ts.len(), if thorough { "plus each character after/before U+30BD and between U+FF71; ordered pairs of special characters on every target; special x any character in both orders on 9 representative targets" } else { "ordered pairs of special characters on a subset of targets" },
         if thorough { "0..=300".to_string() } else { format!("{:?}", QUICK_LENS) }, unencodable_candidates().len(),
         if thorough { " + every unencodable BMP scalar value on z(bs=4)" } else { "" });
     rep.assumptions.push("encoding_rs::SHIFT_JIS is the trusted character table (same library truth uses); 'represents unambiguously' = code -> char -> same code".into());
     rep.assumptions.push("U+00A5, U+203E, U+2212 encode to bytes that decode to a different character: ambiguous, outside the property".into());
     rep.assumptions.push("a MSG instruction stores its argument size in one byte, so a string whose argument blob exceeds 255 bytes 'does not fit' and must be rejected".into());
     rep.assumptions.push("byte-level model (M7) is compared for MSG carriers and mission.msg; STD names, ANM paths and ANM-carried signatures are checked by the text round trip only".into());
+    rep.assumptions.push("a decompile warning on a legally generated string counts as a violation; compile warnings are only recorded".into());
     rep.explanation = "Each case is written as a string literal into a real script/metadata source, compiled and decompiled in-process by truth; \
 the literal is recovered from the decompiled text by an independent scanner and compared character for character; for MSG/mission the emitted bytes are compared with an independently \
 computed encoding (SJIS + NUL + furigana carry-over + padding + accelerating XOR mask / fixed buffer / length prefix). Cases the model says cannot be encoded or do not fit must yield an error diagnostic.".into();
